@@ -1416,8 +1416,10 @@ class Result:
 
             old_logger = CobaContext.logger
             CobaContext.logger = NullLogger()
-            for l_,v_ in wheres: subplot = subplot.where(**{l_:v_})
-            CobaContext.logger = old_logger
+            try:
+                for l_,v_ in wheres: subplot = subplot.where(**{l_:v_})
+            finally:
+                CobaContext.logger = old_logger
 
             #we are assuming at this point that only valid
             #`l` are left which isn't necessarily the case
